@@ -352,8 +352,8 @@ PROFILES = {
 
 
 def gen_grid(rng, small=False):
-    nr = rng.randrange(1, 8) if small else rng.choice([1, 2, 2, 3, 5, 8, 13, 21, 34, 40, rng.randrange(1, 41)])
-    nc = rng.randrange(1, 5) if small else rng.choice([1, 2, 2, 3, 4, 6, 9, 12, rng.randrange(1, 13)])
+    nr = rng.choice([1, 2, 2, 3, 3, 4, 5, 6, 7]) if small else rng.choice([1, 2, 2, 3, 5, 8, 13, 21, 34, 40, rng.randrange(1, 41)])
+    nc = rng.choice([1, 2, 2, 3, 3, 4, 4]) if small else rng.choice([1, 2, 2, 3, 4, 6, 9, 12, rng.randrange(1, 13)])
     pname = rng.choice(["mixed", "mixed", "mixed", "text", "numbers", "hostile"])
     profile = PROFILES[pname]
     flags = [rng.random() < 0.35, rng.random() < 0.3, rng.random() < 0.3]
@@ -601,7 +601,8 @@ def replay(path: str) -> int:
                 fails = [] if line == "reported" else [("error-not-reported", line)]
             else:
                 fails = []
-        fails = [f for f in fails if f[0] == d.get("signature")] or fails
+        known_open = {k["signature"] for k in common.load_known() if k["property"] == d.get("property") and k.get("status") == "open"}
+        fails = [f for f in fails if f[0] == d.get("signature")] or [f for f in fails if f[0] not in known_open]
         if fails:
             print(f"replay: still failing: [{fails[0][0]}] {fails[0][1]}")
             print(f"VIOLATION property=C20 replay={path}")
